@@ -110,24 +110,43 @@ def run_harness(args, stdin=None, timeout=600, race=False, mem_kb=None, check=Tr
 
 
 # ---------------------------------------------------------------- Coq
+MAKE_FAILURES = []      # files of the shared Coq project that did not build in this process's last `make`
+
+
 def coq_make(targets=None, timeout=3000):
-    """Incremental `make` of the Coq development (full .vo build)."""
+    """Incremental `make` of the Coq development (full .vo build, never -vos).  With explicit targets a failure is raised.
+    Without, `make -k` builds everything that can be built: a file that fails loses its stale .vo (so nothing can be
+    checked against an out-of-date library) and is remembered in MAKE_FAILURES; each check then fails only if ITS OWN
+    theorem file or case files cannot be compiled, i.e. if something it depends on is broken."""
     with Lock("coqmake"):
         if not os.path.exists(os.path.join(COQ, "Makefile")) or \
                 os.path.getmtime(os.path.join(COQ, "Makefile")) < os.path.getmtime(os.path.join(COQ, "_CoqProject")):
             r = sh(["coq_makefile", "-f", "_CoqProject", "-o", "Makefile"], cwd=COQ)
             if r.returncode != 0:
                 raise Broken("coq_makefile", r.stdout[-2000:])
-        cmd = ["timeout", str(timeout), "make", "-j16"]
+        cmd = ["timeout", str(timeout), "make", "-k", "-j16"]
         if targets:
             cmd += targets
         t0 = time.time()
         r = sh(cmd, cwd=COQ)
         log(f"[coq] make {' '.join(targets or ['all'])}: rc={r.returncode} {time.time()-t0:.1f}s")
         if r.returncode != 0:
+            failed = sorted(set(re.findall(r"\*\*\* \[Makefile:\d+: ([^\]]+?)\.vo\]", r.stdout)))
+            for f in failed:
+                for ext in (".vo", ".vos", ".vok", ".glob"):
+                    try:
+                        os.unlink(os.path.join(COQ, f + ext))
+                    except OSError:
+                        pass
             m = re.search(r'File "\./([^"]+)", line (\d+)', r.stdout)
             where = f"{m.group(1)}:{m.group(2)}" if m else "?"
-            raise Broken("coq-build " + where, r.stdout[-4000:])
+            del MAKE_FAILURES[:]
+            MAKE_FAILURES.extend(f + ".v" for f in failed)
+            log(f"[coq] did not build: {', '.join(MAKE_FAILURES) or where}")
+            if targets or not failed:
+                raise Broken("coq-build " + where, r.stdout[-4000:])
+        else:
+            del MAKE_FAILURES[:]
         return r.stdout
 
 
@@ -144,7 +163,8 @@ def check_property_file(pid, extra_deps=()):
         log(f"[coq] coqc Properties/{pid}.v rc={r.returncode} {time.time()-t0:.1f}s")
     if r.returncode != 0:
         m = re.search(r'line (\d+)', r.stdout)
-        raise Broken(f"theorem-file Properties/{pid}.v" + (f" line {m.group(1)}" if m else ""), r.stdout[-4000:])
+        raise Broken(f"theorem-file Properties/{pid}.v" + (f" line {m.group(1)}" if m else "") +
+                     (f" (files that did not build: {', '.join(MAKE_FAILURES)})" if MAKE_FAILURES else ""), r.stdout[-4000:])
     chk = None
     if os.environ.get("VERIF_TIER_EFFECTIVE") == "thorough":
         # independent re-check of the compiled property file and everything it depends on; lists axioms
